@@ -141,10 +141,13 @@ func renderListing(funcs []function, i386 bool, table map[int]string, r *rand.Ra
 					line(fi, trap())
 					found = false
 				case "dangling":
-					if r.Intn(2) == 0 {
+					switch r.Intn(3) {
+					case 0:
 						line(fi, fmt.Sprintf("%s %s, AX", mov(), num(v.Num)))
-					} else {
+					case 1:
 						line(fi, fmt.Sprintf("%s %s, 0(SP)", mov(), num(v.Num)))
+					default:
+						line(fi, "XORL AX, AX") // "number 0" that no trap of this function consumes
 					}
 					found = false
 				}
@@ -193,6 +196,13 @@ func genFunctionsOpt(r *rand.Rand, nf int, table map[int]string, allowHuge bool)
 		if r.Intn(10) == 0 {
 			f.Header = 1 + r.Intn(2)
 			orphanFirst = r.Intn(2) == 0
+		}
+		if orphanFirst && len(funcs) > 0 && r.Intn(2) == 0 {
+			// the function before ends with a number load that nothing there consumes, directly in front of this function's marker
+			prev := &funcs[len(funcs)-1]
+			if len(prev.Items) < 1000 {
+				prev.Items = append(prev.Items, site{Kind: "dangling", Num: pickNum()})
+			}
 		}
 		for k := 0; k < nItems; k++ {
 			if nItems > 1000 {
